@@ -422,3 +422,28 @@ pub fn install_panic_hook_verbose() {
         std::process::exit(2);
     }));
 }
+
+/// Child ids of a type with the way each child is held:
+/// "value" (by value: struct member, variant payload, newtype inner, option,
+/// tuple, array) or "heap" (Box, Vec, Set, Map).
+pub fn children_of(ty: &Type) -> Vec<(TypeId, &'static str)> {
+    match ty.details() {
+        TypeDetails::Struct(s) => s.properties().map(|(_, id)| (id, "value")).collect(),
+        TypeDetails::Enum(e) => e
+            .variants()
+            .flat_map(|(_, v)| match v {
+                TypeEnumVariant::Simple => vec![],
+                TypeEnumVariant::Tuple(ids) => ids,
+                TypeEnumVariant::Struct(ps) => ps.into_iter().map(|(_, id)| id).collect(),
+            })
+            .map(|id| (id, "value"))
+            .collect(),
+        TypeDetails::Newtype(n) => vec![(n.inner(), "value")],
+        TypeDetails::Option(id) => vec![(id, "value")],
+        TypeDetails::Tuple(it) => it.map(|id| (id, "value")).collect(),
+        TypeDetails::Array(id, n) => vec![(id, if n > 0 { "value" } else { "heap" })],
+        TypeDetails::Box(id) | TypeDetails::Vec(id) | TypeDetails::Set(id) => vec![(id, "heap")],
+        TypeDetails::Map(k, v) => vec![(k, "heap"), (v, "heap")],
+        _ => vec![],
+    }
+}
